@@ -3,6 +3,7 @@ package whispertool
 import (
 	"errors"
 	"fmt"
+	"io"
 	"os"
 	"sort"
 	"syscall"
@@ -116,9 +117,13 @@ func Open(filename string, opts ...Option) (*Whisper, error) {
 
 	w.fileBuf = filebuffer.New(w.file, st.Size(), w.pageSize)
 
-	if err := w.readHeader(); err != nil {
+	if err := w.readHeader(st.Size()); err != nil {
 		w.file.Close()
 		return nil, fmt.Errorf("readHeader: %s: %s", filename, err)
+	}
+	if st.Size() < w.header.ExpectedFileSize() {
+		w.file.Close()
+		return nil, fmt.Errorf("file too short: %s: size=%d, expected=%d", filename, st.Size(), w.header.ExpectedFileSize())
 	}
 	return w, nil
 }
@@ -421,7 +426,7 @@ func (w *Whisper) putHeader() error {
 	return nil
 }
 
-func (w *Whisper) readHeader() error {
+func (w *Whisper) readHeader(fileSize int64) error {
 	buf := make([]byte, w.pageSize)
 	if _, err := w.fileBuf.ReadAt(buf[:metaSize], 0); err != nil {
 		return err
@@ -435,6 +440,9 @@ func (w *Whisper) readHeader() error {
 		}
 
 		wantSize := werr.WantedBufSize
+		if int64(wantSize) > fileSize {
+			return io.ErrUnexpectedEOF
+		}
 		if wantSize > len(buf) {
 			buf = make([]byte, wantSize)
 		}
